@@ -180,24 +180,30 @@ def _iter_bool(it, args, universal):
     if isinstance(src, _GenExp):
         g = src
         gens = g.node.generators
-        if len(gens) == 1:
-            itv = it.eval(gens[0].iter, g.env)
-            if isinstance(itv, SymSeq):
-                # quantified form over an unbounded sequence: body must be side-effect free
-                j = z3.Int(it.path.fresh("k"))
-                e = Env(parent=g.env, module=g.env.module)
-                it.assign_target(gens[0].target, itv.elem(j), e)
-                saved = it.spec
-                it.spec = True
-                try:
-                    conds = [truthy(it.eval(c, e)) for c in gens[0].ifs]
-                    body = truthy(it.eval(g.node.elt, e))
-                finally:
-                    it.spec = saved
-                rng = z3.And(j >= 0, j < itv.n, *[_zb(c) for c in conds])
-                if universal:
-                    return wrap(z3.ForAll([j], z3.Implies(rng, _zb(body))))
-                return wrap(z3.Exists([j], z3.And(rng, _zb(body))))
+        first = it.eval(gens[0].iter, g.env)
+        if isinstance(first, SymSeq):
+            # quantified form over unbounded sequences (possibly nested): bodies must be side-effect free
+            saved = it.spec
+            it.spec = True
+            try:
+                def build(k, env, itv):
+                    j = z3.Int(it.path.fresh("k"))
+                    e = Env(parent=env, module=env.module)
+                    it.assign_target(gens[k].target, itv.elem(j), e)
+                    conds = [_zb(truthy(it.eval(c, e))) for c in gens[k].ifs]
+                    rng = z3.And(j >= 0, j < itv.n, *conds)
+                    if k + 1 < len(gens):
+                        nxt = it.eval(gens[k + 1].iter, e)
+                        if not isinstance(nxt, SymSeq):
+                            raise OutOfSubset("nested comprehension over a mix of symbolic and concrete iterables")
+                        inner = build(k + 1, e, nxt)
+                    else:
+                        inner = _zb(truthy(it.eval(g.node.elt, e)))
+                    return z3.ForAll([j], z3.Implies(rng, inner)) if universal else z3.Exists([j], z3.And(rng, inner))
+
+                return wrap(build(0, g.env, first))
+            finally:
+                it.spec = saved
         if it.spec:
             terms = []
             it.comp(gens, 0, Env(parent=g.env, module=g.env.module), lambda e: terms.append(truthy(it.eval(g.node.elt, e))))
@@ -1080,6 +1086,21 @@ def x_enum_auto(it, args, kw):
     return _AUTO[0]
 
 
+class NoopCM:
+    """A context manager whose enter/exit have no effect the contracts care about (warnings filters, hypothesis reporter)."""
+
+    def __init__(self, value=None):
+        self.value = value
+
+
+def x_noop(it, args, kw):
+    return None
+
+
+def x_catch_warnings(it, args, kw):
+    return NoopCM([] if kw.get("record") else None)
+
+
 def x_uuid4(it, args, kw):
     from .contracts import fresh_opaque
 
@@ -1093,6 +1114,10 @@ def x_time(it, args, kw):
 EXTERN = {
     "enum.auto": x_enum_auto,
     "uuid.uuid4": x_uuid4,
+    "warnings.filterwarnings": x_noop,
+    "warnings.simplefilter": x_noop,
+    "warnings.catch_warnings": x_catch_warnings,
+    "hypothesis.reporting.with_reporter": lambda it, a, k: NoopCM(None),
     "time.time": x_time,
     "time.monotonic": x_time,
     "functools.partial": x_partial,
